@@ -76,6 +76,6 @@ def run(ctx):
                 "MC_Cmd between two ECHOs, and every composed command cut at EVERY byte offset (half and full close, with and without a "
                 "password), all with a recording tracer installed; TraceConn's span operators require: one root per request finished exactly "
                 "once, children started under an open parent and finished before it, no double finish, no open span at the next root or at "
-                "return, each reply written inside exactly one root. distinct = distinct sequences of span names",
+                "return, one root per request counted wherever the server waits for input and at return; plus reply write failures. distinct = distinct sequences of span names",
         "samples": samples or [{"note": "replay"}], "exhaustive": True, "spans_started": nspans, "max_depth": deepest, **counts,
     }, assumptions=["spans are recorded by a tracer.Tracer double built on go-tracing's common span-context stack (the production contexts use the same stack)"])
